@@ -960,3 +960,47 @@ Definition ex_world (sh : list (vid * shape)) (man : list (vid * option bytes)) 
        t_target := [([111], TDev None); ([100; 47; 97], TDev None); ([100; 47; 98], TDev None); ([102], TDev (Some 0))];
        t_stdout := so; t_bufcap := 1024 |}.
 Definition ex_abc : bytes := [97; 98; 99].
+
+(* ------------------------------------------------------------------ more exit-1 outcomes *)
+
+(* an input that cannot be read or loaded: exit 1, nothing written anywhere *)
+Theorem input_failure_is_exit1 : forall f c w,
+  w_clap_ok w = true -> (c_string c && c_yaml c) = false -> load_input c w = None ->
+  run_gen f c w = fail_result [].
+Proof.
+  intros f c w Hclap Hsy Hl. unfold run_gen, compute, prepare. rewrite Hclap, Hsy, Hl. reflexivity.
+Qed.
+
+Lemma stdin_failure_no_load : forall c w,
+  c_exec c = false -> c_input c = s_minus -> w_stdin w = None -> load_input c w = None.
+Proof. intros c w He Hi Hs. unfold load_input. rewrite He, Hi, Hs. reflexivity. Qed.
+
+(* top-level arguments given twice, or given to a program that is not a function, never succeed *)
+Theorem tla_misuse_never_succeeds : forall f c w tla warned,
+  (forall v params, w_shape w v = ShFunc params -> NoDup (map fst params)) ->
+  all_tla c w = Some (tla, warned) ->
+  (~ NoDup (map fst tla) \/
+   (tla <> [] /\ forall s id v, load_input c w = Some id -> w_eval w s (ThLoaded id) = Some v ->
+                                forall params, w_shape w v <> ShFunc params)) ->
+  r_exit (run_gen f c w) <> 0.
+Proof.
+  intros f c w tla warned Hfun Htla Hbad.
+  assert (Hp : prepare c w = PUsage \/ prepare c w = PFail).
+  { unfold prepare. destruct (negb (w_clap_ok w)); [left; reflexivity|].
+    destruct (c_string c && c_yaml c); [left; reflexivity|]. right.
+    destruct (load_input c w) as [root|] eqn:El; [|reflexivity].
+    destruct (all_ext c w) as [ext|]; [|reflexivity]. rewrite Htla.
+    destruct (w_eval w (mk_session c w ext) (ThLoaded root)) as [v0|] eqn:Ee; [|reflexivity].
+    destruct (w_shape w v0) as [params| | | |] eqn:Es.
+    - destruct Hbad as [Hdup|[_ Hnf]].
+      + destruct (bind_tla params tla) as [bs| | |] eqn:Eb; try reflexivity.
+        * exfalso. apply Hdup. destruct (bind_tla_sound params tla bs (Hfun _ _ Es) Eb) as (_ & Hnd & _). exact Hnd.
+        * exfalso. pose proof (bind_tla_no_panic params tla) as Hn. rewrite Eb in Hn. exact Hn.
+        * exfalso. pose proof (bind_tla_no_panic params tla) as Hn. rewrite Eb in Hn. exact Hn.
+      + exfalso. apply (Hnf _ _ _ eq_refl Ee params). exact Es.
+    - destruct tla; [|reflexivity]. exfalso. destruct Hbad as [Hdup|[Hne _]]; [apply Hdup; constructor|apply Hne; reflexivity].
+    - destruct tla; [|reflexivity]. exfalso. destruct Hbad as [Hdup|[Hne _]]; [apply Hdup; constructor|apply Hne; reflexivity].
+    - destruct tla; [|reflexivity]. exfalso. destruct Hbad as [Hdup|[Hne _]]; [apply Hdup; constructor|apply Hne; reflexivity].
+    - destruct tla; [|reflexivity]. exfalso. destruct Hbad as [Hdup|[Hne _]]; [apply Hdup; constructor|apply Hne; reflexivity]. }
+  unfold run_gen, compute. destruct Hp as [Hp|Hp]; rewrite Hp; cbn; discriminate.
+Qed.
